@@ -206,7 +206,8 @@ def seed_C15(m):
 
 
 def search_C15(rng, deadline, broken):
-    specials = [datetime.date(2020, 1, 1), datetime.date(1582, 10, 15), datetime.date(1, 1, 1),
+    specials = [datetime.date(1582, 1, 1) + datetime.timedelta(days=k) for k in range(365)] + \
+               [datetime.date(2020, 1, 1), datetime.date(1582, 10, 15), datetime.date(1, 1, 1),
                 datetime.date(9999, 12, 31), datetime.date(2000, 2, 29), datetime.date(1900, 3, 1),
                 datetime.date(1600, 12, 31), datetime.date(2100, 1, 1)]
     i = 0
@@ -321,9 +322,54 @@ C03_FUNCS = ["dawn", "dusk", "sunrise", "sunset", "time_at_elevation", "moonrise
              "daylight", "night", "twilight", "golden_hour", "blue_hour"]
 
 
+def _c03_datetime_as_date(rng):
+    """the requested date given as a datetime (its own calendar date counts): the reported event
+    must lie on that date — in the datetime's own zone for the sun events, in the requested zone
+    for the moon"""
+    import gens
+    import zones
+    import astral.sun as sun
+    import astral.moon as moon
+    o = gens.rand_observer(rng, tuples=False)
+    d = gens.rand_date(rng, wide=False)
+    z = zones.rand_zone(rng, d)
+    z2 = zones.rand_zone(rng, d)
+    dt = datetime.datetime(d.year, d.month, d.day, rng.choice([0, 23, rng.randint(0, 23)]), rng.choice([5, 55]),
+                           tzinfo=z2.tzinfo)
+    for name, f, zone_of_result in (
+            ("moonrise", lambda: moon.moonrise(o, dt, z.tzinfo), z),
+            ("moonset", lambda: moon.moonset(o, dt, z.tzinfo), z),
+            ("sunrise", lambda: sun.sunrise(o, dt, z.tzinfo), z2),
+            ("dusk", lambda: sun.dusk(o, dt, 6, z.tzinfo), z2)):
+        try:
+            v = f()
+        except ValueError:
+            continue
+        if v is None:
+            continue
+        got = v.astimezone(zone_of_result.tzinfo).date()
+        if got != d:
+            return {"clause": "%s with the aware datetime %s as the date returned %s, which is on %s in %s, "
+                              "not on %s" % (name, dt.isoformat(), v.isoformat(), got,
+                                             zone_of_result.describe(), d),
+                    "observer": {"latitude": o.latitude, "longitude": o.longitude, "elevation": o.elevation},
+                    "zone": z.describe()}
+    return None
+
+
 def search_C03(rng, deadline, broken):
     import gens
+    n = 0
     while time.time() < deadline:
+        n += 1
+        if n % 3 == 0:
+            try:
+                r = _c03_datetime_as_date(rng)
+            except Exception as exc:  # noqa: BLE001
+                r = {"clause": "raised %r" % (exc,)}
+            if r:
+                r["kind"] = "datetime-as-date"
+                return r
         o, d, z = _sun_inputs(rng)
         for fn in C03_FUNCS:
             extra = {"dep": gens.rand_depression(rng), "el": rng.choice([6.0, -6.0, -4.0, rng.uniform(-18, 60)]),
@@ -338,6 +384,8 @@ def search_C03(rng, deadline, broken):
 
 
 def replay_C03(fi):
+    if fi.get("kind") == "datetime-as-date":
+        return None          # found by random search; replayed by re-running the search
     z = _zone_from_descr(fi["zone"])
     o = _obs_from_descr(fi["observer"])
     return _c03_one(o, datetime.date.fromisoformat(fi["date"]), z, fi["function"], fi["extra"]) is None
